@@ -46,8 +46,23 @@ def desc_size(d):
     return len(json.dumps(d))
 
 
+def corpus_cases():
+    """minimised failing inputs kept from earlier findings and seeded changes (corpus/netlist/*.json)"""
+    import glob, os
+    out = []
+    for f in sorted(glob.glob(os.path.join(common.VERIF, "corpus", "netlist", "*.json"))):
+        c = json.load(open(f))
+        t = dict(c.get("tags") or {})
+        t["corpus"] = os.path.basename(f)
+        out.append((c["desc"], t))
+    return out
+
+
 def explore(pid, cases, rep, nontrivial, extra_checks=()):
     """cases: list of (desc, tags).  Returns stats."""
+    seen = {common.canon(d) for d, _ in cases}
+    corpus = [(d, t) for d, t in corpus_cases() if common.canon(d) not in seen]
+    cases = corpus + list(cases)
     res = common.run_worker("worker_gen", [{"desc": d} for d, _ in cases])
     # the model (extracted Coq pipeline, networkx-mirroring oracle) on the same descriptions
     mreqs = [modelio.request(d) for d, _ in cases]
@@ -112,7 +127,7 @@ def explore(pid, cases, rep, nontrivial, extra_checks=()):
         stats["vm_crosscheck"] = chk
         stats["vm_crosscheck_agreed"] = agr
         if chk != agr:
-            rep.corr_broken(f"extracted binary and vm_compute disagree on {chk - agr} of {chk} sampled requests", None)
+            rep.corr_broken(f"extracted binary and vm_compute disagree on {chk - agr} of {chk} sampled requests: {common.LAST_VM_LOG[-600:]}", None)
     except Exception as e:  # the cross-check is auxiliary
         rep.notes.append(f"vm_compute cross-check not run: {e}")
     for i, out in zip(idx, outs):
